@@ -264,6 +264,8 @@ def run_test_driver(binp, scenarios, wd, timeout=1200, env_extra=None, name="drv
                     traces[sid] = tr2[sid]
             if again < 2:
                 log("scenario %s crashed once but not on re-run: treated as non-reproducible (not a verdict)" % sid)
+                if os.environ.get("VERIF_DEBUG"):
+                    log(crashed[sid])
                 FLAKY_CRASHES.append(sid)
                 del crashed[sid]
     return traces, crashed
